@@ -76,6 +76,9 @@ type Event struct {
 	Img    []int  `json:"img,omitempty"` // C06: header keys present in the crashed image
 	Cont   int    `json:"cont,omitempty"`
 	Cfg    string `json:"cfg"`
+	// datastore write failure inside a DeleteRange (variant dfail): the failed attempt, and the retry that follows it
+	DsFault      bool `json:"dsFault"`
+	AfterDsFault bool `json:"afterDsFault"`
 }
 
 // W is an abstract write-log entry (same shape as Store.tla's writes).
@@ -422,6 +425,7 @@ type variant struct {
 	free     bool // hand-built scenario without model prediction: judged by the property layer only
 	failOp   int  // index of the op whose datastore writes fail transiently (-1: none)
 	failN    int
+	dfail    int // >0: the dfail-th datastore write of the last operation (a DeleteRange) fails; the deletion is then retried
 }
 
 func parseVariant(s string) variant {
@@ -435,6 +439,8 @@ func parseVariant(s string) variant {
 		v.free = true
 	case strings.HasPrefix(s, "wfail:"):
 		fmt.Sscanf(s, "wfail:%d:%d", &v.failOp, &v.failN)
+	case strings.HasPrefix(s, "dfail:"):
+		fmt.Sscanf(s, "dfail:%d", &v.dfail)
 	}
 	return v
 }
@@ -473,6 +479,13 @@ func (e *env) doOp(op map[string]any, idx int, v variant, skipWait, last bool) (
 					ev.From = int(tl.Height())
 				} else {
 					ev.From = 0
+				}
+			}
+			if ev.To < 0 { // "up to the current head" (retry of a head-side deletion)
+				if hd, herr := e.st.Head(bg); herr == nil {
+					ev.To = int(hd.Height()) + 1
+				} else {
+					ev.To = 0
 				}
 			}
 			e.failAt = ev.FailAt
@@ -642,6 +655,7 @@ func runOnce(t *testing.T, id int, c map[string]any, cacheSz int, v variant, bas
 	var lastLogStart int
 	var e *env
 	var baseLog []rec.Entry
+	dfailRetried, noEpilogue := false, false
 	defer func() {
 		rr = runResult{events: events, drift: drift, fatal: fatal, lastLogStart: lastLogStart, baseLog: baseLog, cf: cf}
 	}()
@@ -670,9 +684,42 @@ func runOnce(t *testing.T, id int, c map[string]any, cacheSz int, v variant, bas
 			if v.failOp == i && (opName(i) == "append" || opName(i) == "sync" || opName(i) == "stop") {
 				e.rs.FailWrites(0, v.failN)
 			}
+			dfailNow := v.dfail > 0 && i == len(hist)-1 && opName(i) == "delete"
+			if dfailNow {
+				e.rs.FailWrites(v.dfail-1, 1)
+			}
 			ev := e.doOp(op, id+i, v, skip, i == len(hist)-1)
 			e.rs.ClearFails()
 			ev.Tr, ev.I, ev.Cfg = id, i, cfgName(cf)+","+v.name
+			if dfailNow {
+				// the failed attempt is recorded but not judged; the same deletion is then retried from wherever the
+				// pointers ended up, and the retry is judged as a deletion of the original range
+				ev.DsFault = ev.Res != "ok"
+				events = append(events, ev)
+				if ev.Res == "panic" {
+					break
+				}
+				if ev.Res != "ok" {
+					retry := map[string]any{"op": "delete", "from": float64(-1), "to": float64(ev.To), "failAt": float64(0)}
+					if mbt.Str(op, "kind") == "head" {
+						retry["from"], retry["to"] = float64(ev.From), float64(-1)
+					}
+					ev2 := e.doOp(retry, id+i+1, v, false, false)
+					ev2.Tr, ev2.I, ev2.Cfg = id, i+1, cfgName(cf)+","+v.name+",retry"
+					ev2.AfterDsFault = true
+					if mbt.Str(op, "kind") != "head" {
+						ev2.From = ev.From // judged against the original range
+					} else {
+						ev2.To = ev.To
+					}
+					events = append(events, ev2)
+					dfailRetried = true
+					// a deletion that failed on a datastore write and could not be completed by the retry leaves pointers
+					// that only a later successful deletion repairs: no clean-restart verdict for that state
+					noEpilogue = ev2.Res != "ok"
+				}
+				continue
+			}
 			if skip {
 				// the synced observation of this step comes from the awaited run of the same behaviour
 				ev.Obs, ev.WS, ev.Res = baseEvents[i].Obs, baseEvents[i].WS, baseEvents[i].Res
@@ -705,8 +752,11 @@ func runOnce(t *testing.T, id int, c map[string]any, cacheSz int, v variant, bas
 		// events carry no model prediction and are judged by the property layer only (a clean restart reports the
 		// same Head, Tail and headers; C04 holds on the reopened store).
 		panicked := len(events) > 0 && events[len(events)-1].Res == "panic"
-		if !panicked && v.failOp < 0 && os.Getenv("VH_NOEPILOGUE") == "" {
+		if !panicked && v.failOp < 0 && !noEpilogue && os.Getenv("VH_NOEPILOGUE") == "" {
 			n := len(hist)
+			if dfailRetried {
+				n++
+			}
 			for _, name := range []string{"stop", "start"} {
 				if name == "stop" && !e.up {
 					continue
@@ -770,6 +820,15 @@ func crashPrefixes(t *testing.T, id int, c map[string]any, cacheSz int, r runRes
 				}
 			}
 			ev.Cont = maxStored
+			if p%2 == 1 {
+				// every other prefix continues with a different header at the next heights (a re-organisation after a
+				// head-side deletion): stale leftovers of the old headers of those heights must not hide the new ones
+				e2.chain = e2.chain.Fork(uint64(maxStored+1), 9)
+				for _, h := range e2.chain.Headers {
+					e2.byHash[h.Hash().String()] = int(h.H)
+				}
+				ev.Cfg += ",fork"
+			}
 			err := e2.st.Append(context.Background(), e2.chain.At(uint64(maxStored+1)), e2.chain.At(uint64(maxStored+2)))
 			synctest.Wait()
 			if err == nil {
